@@ -42,13 +42,15 @@ func genCorpusSteps(t *rapid.T, cfg Config, o CorpusOpts) []c01Step {
 	for i := 0; i < n; i++ {
 		c := rapid.IntRange(0, 19).Draw(t, "step")
 		switch {
-		case c < 14:
+		case c < 12:
 			steps = append(steps, c01Step{Kind: "batch", Ops: genDataBatch(t, "b", 5, o.Doc)})
-		case c < 17:
+		case c < 15:
 			steps = append(steps, c01Step{Kind: "single", Ops: genDataBatch(t, "s", 1, o.Doc)})
-		case c < 18 && cfg.OnDisk():
+		case c < 16 && cfg.OnDisk():
 			steps = append(steps, c01Step{Kind: "reopen"})
 		case c < 19 && cfg.Engine == EngScorchDisk:
+			// forced merges in the middle of a history: merged segments use encodings (1-hit
+			// postings) that freshly indexed ones rarely have
 			steps = append(steps, c01Step{Kind: "merge"})
 		default:
 			steps = append(steps, c01Step{Kind: "batch", Ops: genDataBatch(t, "b", 5, o.Doc)})
@@ -76,7 +78,7 @@ func genDataBatch(t *rapid.T, label string, maxOps int, o DocGenOpts) []Op {
 // and its directory removed when the rapid case ends.
 func BuildCorpus(t *rapid.T, o CorpusOpts) *Corpus {
 	if o.Engines == nil {
-		o.Engines = []string{EngScorchMem, EngScorchMem, EngScorchDisk, EngUDGtreap, EngUDBolt}
+		o.Engines = []string{EngScorchMem, EngScorchDisk, EngScorchDisk, EngUDGtreap, EngUDBolt}
 	}
 	if o.MaxSteps == 0 {
 		o.MaxSteps = 8
